@@ -161,6 +161,11 @@ func (c *Ctx) guardedNotNumber(at ssa.Instruction, isInst func(ssa.Value) bool) 
 						}
 					}
 				}
+			case *ssa.Call:
+				// !isJSONNumber(instance)
+				if len(x.Call.Args) == 1 && isInst(x.Call.Args[0]) && v == g.Cond && !g.Pol && c.isJSONNumberPredicate(x.Call.StaticCallee()) {
+					return true
+				}
 			case *ssa.Extract:
 				// _, isNum := jsonNumber(instance); !isNum
 				if cc, ok := x.Tuple.(*ssa.Call); ok && ext != nil && cc.Call.StaticCallee() == ext && x.Index == 1 && isInst(cc.Call.Args[0]) && v == g.Cond && !g.Pol && len(guardsOf(cc)) == 0 {
@@ -170,6 +175,57 @@ func (c *Ctx) guardedNotNumber(at ssa.Instruction, isInst func(ssa.Value) bool) 
 		}
 	}
 	return false
+}
+
+// isJSONNumberPredicate: fn is a package predicate on a reflect.Value that answers true only where the value's type
+// has been found to be json.Number (func isJSONNumber(v) bool { return v.IsValid() && v.Type() == jsonNumberType }).
+func (c *Ctx) isJSONNumberPredicate(fn *ssa.Function) bool {
+	if fn == nil || !c.P.InPkg(fn) || len(fn.Params) != 1 || !tReflectValue(fn.Params[0].Type()) || fn.Signature.Results().Len() != 1 || !isBoolType(fn.Signature.Results().At(0).Type()) {
+		return false
+	}
+	jng := c.jsonNumberTypeGlobals()
+	isTypeTest := func(v ssa.Value) bool {
+		bo, ok := v.(*ssa.BinOp)
+		if !ok || bo.Op != token.EQL {
+			return false
+		}
+		for _, pair := range [][2]ssa.Value{{bo.X, bo.Y}, {bo.Y, bo.X}} {
+			if g := loadedFromGlobal(pair[1]); g != nil && jng[g] {
+				if tc, ok := pair[0].(*ssa.Call); ok && core.CalleeKey(&tc.Call) == "reflect.Value.Type" && tc.Call.Args[0] == ssa.Value(fn.Params[0]) {
+					return true
+				}
+			}
+		}
+		return false
+	}
+	good, n := true, 0
+	var judge func(v ssa.Value, depth int) bool
+	judge = func(v ssa.Value, depth int) bool {
+		if depth == 0 {
+			return false
+		}
+		switch x := v.(type) {
+		case *ssa.Const:
+			return x.Value != nil && x.Value.String() == "false"
+		case *ssa.Phi:
+			for _, e := range x.Edges {
+				if !judge(e, depth-1) {
+					return false
+				}
+			}
+			return true
+		}
+		return isTypeTest(v)
+	}
+	core.EachInstr(fn, func(i ssa.Instruction) {
+		if ret, ok := i.(*ssa.Return); ok && len(ret.Results) == 1 {
+			n++
+			if !judge(ret.Results[0], 4) {
+				good = false
+			}
+		}
+	})
+	return good && n > 0
 }
 
 func (c *Ctx) jsonNumberTypeGlobals() map[*ssa.Global]bool {
@@ -213,6 +269,9 @@ func (c *Ctx) recognisers(fn *ssa.Function, extractor *ssa.Function, depth int) 
 			key := core.CalleeKey(&x.Call)
 			if strings.HasPrefix(key, "reflect.Value.Can") && len(x.Call.Args) > 0 && subj[x.Call.Args[0]] {
 				out[strings.TrimPrefix(key, "reflect.Value.")] = true
+			}
+			if len(x.Call.Args) == 1 && subj[x.Call.Args[0]] && c.isJSONNumberPredicate(x.Call.StaticCallee()) {
+				out["json.Number"] = true
 			}
 			if depth > 0 && x.Call.StaticCallee() == extractor && extractor != fn && len(x.Call.Args) > 0 && subj[x.Call.Args[0]] && len(guardsOf(x)) == 0 {
 				for k := range c.recognisers(extractor, extractor, depth-1) {
